@@ -245,7 +245,14 @@ func check(prop, tier string) int {
 				}
 			}
 		}
-		if len(again) > 0 && len(again) <= 12 {
+		busy := false
+		if b, err := os.ReadFile("/proc/loadavg"); err == nil {
+			var l1 float64
+			fmt.Sscanf(string(b), "%f", &l1)
+			busy = l1 > 12
+		}
+		// only when the machine is busy: on an idle machine a timeout is what it says
+		if busy && len(again) > 0 && len(again) <= 12 {
 			var obs []*vc.Obligation
 			for _, i := range again {
 				obs = append(obs, results[i].Ob)
